@@ -518,5 +518,26 @@ func genG11(repo string, w *Out) error {
 		}
 	}
 	w.DefStrList("listener_accept_calls", accCalls)
+
+	// ---- a rate-limited listener: ratelimit.Conn.Read must take tokens for the bytes it RECEIVED, after
+	// the read; charging the buffer size before the read would make every parked (stalled) connection hold
+	// tokens of the bucket all connections of the listener share
+	rc, err := Parse(repo, "ratelimit/conn.go")
+	if err != nil {
+		return err
+	}
+	for _, x := range []struct{ fn, def string }{{"Conn.Read", "ratelimit_read_prog"}, {"Conn.Write", "ratelimit_write_prog"}} {
+		fd, err := rc.Func(x.fn)
+		if err != nil {
+			return err
+		}
+		var prog []string
+		for _, c := range rc.CallsIn(fd.Body) {
+			if strings.HasPrefix(c, "c.Conn.") || strings.Contains(c, "Limiter.") {
+				prog = append(prog, c)
+			}
+		}
+		w.DefStrList(x.def, prog)
+	}
 	return genG11Shutdown(repo, w)
 }
